@@ -401,7 +401,8 @@ def handle (name : String) (args : List String) : String :=
             let w := Winding.windingNumber which segs (rows.map (·.2.1)) (rows.map (·.2.2))
             let nl := (Winding.collect 0 (segs.zip (rows.map (·.2.1))) []).length
             let nr := (Winding.collect 0 (segs.zip (rows.map (·.2.2))) []).length
-            s!"ok {w} {nl} {nr}"
+            let ins := Winding.inside which segs (rows.map (·.2.1)) (rows.map (·.2.2))
+            s!"ok {w} {nl} {nr} {ins}"
           | none => "bad-args"
         | _, _, _, _ => "bad-args"
       | _ => "bad-args"
